@@ -133,6 +133,43 @@ func permutations(n int) [][]int {
 	return out
 }
 
+// longLists: equality of address lists is equality of multisets at every length (AddrConv.tla, ListsEqual) -- also where an
+// implementation that pairs entries off instead of sorting would run out of whatever it keeps its marks in.
+func longLists(r *rep.Report) int {
+	n := 0
+	x, y := multiaddr.StringCast("/ip4/9.9.9.9/tcp/9"), multiaddr.StringCast("/dns4/y.example.net/tcp/443/https")
+	for _, size := range []int{9, 17, 33, 64, 65, 66, 70, 129, 260} {
+		var filler []multiaddr.Multiaddr
+		for i := 0; i < size-3; i++ {
+			filler = append(filler, multiaddr.StringCast(fmt.Sprintf("/ip4/10.%d.%d.1/tcp/%d", i/200, i%200, 1000+i)))
+		}
+		for _, where := range []string{"front", "back"} {
+			var la, lb []multiaddr.Multiaddr
+			if where == "front" {
+				la = append([]multiaddr.Multiaddr{x, x, y}, filler...)
+				lb = append([]multiaddr.Multiaddr{x, y, y}, filler...)
+			} else {
+				la = append(append([]multiaddr.Multiaddr(nil), filler...), x, x, y)
+				lb = append(append([]multiaddr.Multiaddr(nil), filler...), x, y, y)
+			}
+			cp := func(l []multiaddr.Multiaddr) []multiaddr.Multiaddr { return append([]multiaddr.Multiaddr(nil), l...) }
+			rot := append(cp(la[size/2:]), la[:size/2]...)
+			rev := cp(la)
+			for i, j := 0, len(rev)-1; i < j; i, j = i+1, j-1 {
+				rev[i], rev[j] = rev[j], rev[i]
+			}
+			n += 4
+			switch {
+			case mautil.MultiaddrsEqual(cp(la), cp(lb)) || mautil.MultiaddrsEqual(cp(lb), cp(la)):
+				r.Diverge(rep.Divergence{Key: "multiaddrs-equal", Detail: fmt.Sprintf("lists of %d entries that differ only in how often two addresses occur (at the %s) reported equal", size, where)})
+			case !mautil.MultiaddrsEqual(cp(la), rot) || !mautil.MultiaddrsEqual(rev, cp(la)):
+				r.Diverge(rep.Divergence{Key: "multiaddrs-equal", Detail: fmt.Sprintf("a list of %d entries and a rearrangement of it reported different", size)})
+			}
+		}
+	}
+	return n
+}
+
 func Run(args []string) *rep.Report {
 	fs := flag.NewFlagSet("c20", flag.ExitOnError)
 	file := fs.String("cases", "", "ndjson case table exported by TLC")
@@ -196,6 +233,21 @@ func Run(args []string) *rep.Report {
 							k = "url-round-trip-path"
 						}
 						bad(k, tc, fmt.Sprintf("%q -> %s -> %q (path %q -> %q)", u.String(), ma, back.String(), u.Path, back.Path))
+					}
+					// the same URL as a parser hands it over when the path was spelled with escapes nobody needs (every byte as %xx, in
+					// lower-case hex): net/url keeps that spelling in RawPath; the conversion is a function of the path, not of its spelling
+					if path != "" {
+						raw := ""
+						for _, c := range []byte(path[1:]) {
+							raw += fmt.Sprintf("%%%02x", c)
+						}
+						if pu, perr := url.Parse(u.Scheme + "://" + u.Host + "/" + raw); perr == nil && pu.Path == u.Path {
+							if pma, err := maurl.FromURL(pu); err != nil || !pma.Equal(ma) {
+								bad("url-spelling", tc, fmt.Sprintf("%q (RawPath %q) -> %v (%v), the same URL spelled canonically -> %s", pu.String(), pu.RawPath, pma, err, ma))
+							} else if pb, err := maurl.ToURL(pma); err != nil || pb.Path != u.Path {
+								bad("url-spelling", tc, fmt.Sprintf("%q (RawPath %q) -> %s -> %v (%v)", pu.String(), pu.RawPath, pma, pb, err))
+							}
+						}
 					}
 					// the tls/http spelling of the same endpoint is https
 					// ... also with the server name between the two components (the form libp2p's HTTP host announces)
@@ -335,6 +387,7 @@ func Run(args []string) *rep.Report {
 	if err != nil {
 		r.SetExtra("read_error", err.Error())
 	}
+	r.SetExtra("long_list_comparisons", longLists(r))
 	r.SetExtra("urls_converted", urls)
 	r.SetExtra("lists_checked", lists)
 	// end to end: a publisher advertised by URL is contacted at exactly that endpoint
